@@ -722,7 +722,9 @@ fn emit_case(em: &mut Emit, amd64: bool, bytes: &[u8], addr: u64, rng: &mut Rng,
         _ => return, // not one whole instruction: C05's domain
     };
     let mode = if amd64 { "amd64" } else { "x86" };
-    let class = format!("{}/{}/{}", mode, d.mnemonic, d.form_in(amd64));
+    // an F2 prefix that capstone does not report as repne (movs/stos/lods: the processor repeats as with F3)
+    let raw_f2 = !d.repne && bytes.iter().take_while(|b| matches!(**b, 0x66 | 0x67 | 0xf2 | 0xf3 | 0x2e | 0x36 | 0x3e | 0x26 | 0x64 | 0x65 | 0xf0)).any(|b| *b == 0xf2);
+    let class = format!("{}/{}/{}{}", mode, d.mnemonic, d.form_in(amd64), if raw_f2 { "+f2" } else { "" });
     for _ in 0..states {
         let st = make_state(&d, amd64, addr, rng);
         em.case(&class, format!("ins {} {} 0x{:x} | {}", mode, bytes_hex(bytes), addr, st.mach().to_string()));
